@@ -127,6 +127,18 @@ structure DrExecAlpha {σ : Type} (T : Tables σ) (B : ℕ) (x : ℕ) (a : ℚ) 
   env : DrEnv x a r.fo
   exec : DrExec T B false x r
 
+/-- `ApiExecC` with the tuning factors of the Gourdon route named (the cache / Legendre / Meissel routes have no tuning factor) -/
+structure ApiExecAlpha {σ : Type} (T : Tables σ) (B : ℕ) (wide : Bool) (x : ℕ) (ay az : ℚ) (r : ApiRun) : Prop where
+  meissel : legendreMax < x → x ≤ meisselMax → 4 ≤ x → irootN 3 x < Nat.sqrt x →
+    r.meissel.valid T.lc x (x / max (irootN 3 x) 1) = true
+  gourdon : meisselMax < x → GExecAlpha T B x ay az r.gourdon
+  /-- the range check of `pi_gourdon_128`: `x ≤ get_max_x(alpha_y)` -/
+  accept : meisselMax < x → wide = true → (x : ℤ) ≤ r.gourdon.fo.maxX
+
+theorem ApiExecAlpha.toApiExecC {σ : Type} {T : Tables σ} {B x : ℕ} {wide : Bool} {ay az : ℚ} {r : ApiRun}
+    (h : ApiExecAlpha T B wide x ay az r) : ApiExecC T B wide x r :=
+  ⟨h.meissel, fun hm => (h.gourdon hm).toGExecC wide (h.accept hm)⟩
+
 /-- every outcome of `pi_gourdon_64/128(x)` under ANY tuning `(ay, az)`: π(x); or the range error, exactly when `x` is above the
     tuning-dependent maximum `get_max_x(alpha_y)` of the 128-bit function; or `badRun` (a recorded D history that is not a run) -/
 theorem Ctx.piGourdon_alpha (k : Ctx) (wide : Bool) (x : ℤ) (hx : InType wide x) (hsmall : x < 2 ∨ 2401 ≤ x) (r : GRun)
